@@ -133,6 +133,22 @@ def main_(seed, nscen):
                 self.producer.pauseProducing()
                 reactor.callLater(0.01, self.producer.resumeProducing)
 
+    class FidgetingConsumer(MemoryConsumer):
+        """pauses and resumes within one write(), resumes twice, or resumes although never paused"""
+        def write(self, data):
+            MemoryConsumer.write(self, data)
+            n = getattr(self, "nwrites", 0)
+            self.nwrites = n + 1
+            if n % 3 == 0:
+                self.producer.pauseProducing()
+                self.producer.resumeProducing()
+            elif n % 3 == 1:
+                self.producer.pauseProducing()
+                reactor.callLater(0.002, self.producer.resumeProducing)
+                reactor.callLater(0.003, self.producer.resumeProducing)
+            else:
+                self.producer.resumeProducing()
+
     class CancellingConsumer(MemoryConsumer):
         """stops its producer at the first write"""
         def write(self, data):
@@ -143,7 +159,7 @@ def main_(seed, nscen):
 
     def start_read(node, offset=0, size=None, how="plain"):
         out = {"done": False, "offset": offset, "size": size, "how": how}
-        c = {"plain": MemoryConsumer, "pause": PausingConsumer, "cancel": CancellingConsumer}[how]()
+        c = {"plain": MemoryConsumer, "pause": PausingConsumer, "cancel": CancellingConsumer, "fidget": FidgetingConsumer}[how]()
         out["consumer"] = c
         d = node.read(c, offset, size)
 
@@ -269,7 +285,7 @@ def main_(seed, nscen):
         plan = [(0, None, "plain")]
         for i in range(4):
             o = rng.choice([0, 1, 15, 16, 17, seg - 1, seg, size - 1, size, size + 5, rng.randrange(size + 1)])
-            plan.append((o, rng.choice([0, 1, 16, seg, size, rng.randrange(1, size + 2)]), rng.choice(["plain", "plain", "pause", "cancel"]) if i == 0 else "plain"))
+            plan.append((o, rng.choice([0, 1, 16, seg, size, rng.randrange(1, size + 2)]), rng.choice(["plain", "pause", "cancel", "fidget"]) if i == 0 else rng.choice(["plain", "plain", "plain", "fidget"])))
         desc = {"k": k, "n": n, "segment_size": seg, "file_size": size, "share_fates": [fates[i] for i in range(n)], "server_order": [sv.name.decode() for sv in servers]}
         # three reads at once on the same node object, then the rest one by one (so that reads follow failed reads)
         batches = [plan[:3]] + [[p] for p in plan[3:]]
@@ -334,7 +350,7 @@ def grid_check(rep, tier, prop):
     rep.sym_paths += nreads
     rep.bounds.append("immutable grid scenarios: %d files (%d reads) encoded by the real Encoder with k-of-n in {1/1,1/3,2/4,3/10,4/4,7/10}, segment sizes {64k,1024,4096}, sizes 0 .. 6 segments (literal files included), "
                       "each share good/slow/missing/bit-flipped/truncated/header-truncated/from another file/from another encoding/on a dead server/on a server dying mid-read, "
-                      "3 concurrent reads (one may pause or cancel) then 2 further reads on the same node" % (sum(r["scenarios"] for r in reports), nreads))
+                      "3 concurrent reads (one may pause, cancel, or pause/resume within a write, resume twice or unasked) then 2 further reads on the same node" % (sum(r["scenarios"] for r in reports), nreads))
     harness = [p for r in reports for p in r["problems"] if p.get("kind") == "harness"]
     bad = [p for r in reports for p in r["problems"] if p.get("kind") in KINDS[prop]]
     if prop == "C01":
